@@ -1594,7 +1594,17 @@ func areaConcRace(r *Rng, n int, dir string) (*AreaOut, error) {
 		if b, err := os.ReadFile(filepath.Join(d, "race_child.json")); err == nil {
 			_ = json.Unmarshal(b, &res)
 		} else if runErr != nil {
-			return nil, fmt.Errorf("race child failed: %v: %s", runErr, se.String())
+			// the stress process died before writing its report: a panic or crash in the code under stress
+			clause := "stress-failure"
+			if strings.Contains(se.String(), "DATA RACE") {
+				clause = "data-race"
+			}
+			txt := se.String()
+			if len(txt) > 6000 {
+				txt = txt[:6000]
+			}
+			out.Oracle = append(out.Oracle, OracleFailure{"C17", clause, fmt.Sprintf("the concurrent stress of topics/climit/cleaner/receiver crashed (%v)", runErr), txt})
+			continue
 		}
 		if res.RaceDetector {
 			hist(out.Hist, "race_detector=on")
